@@ -274,11 +274,28 @@ impl MergedSpec {
 
 impl AnimSpec {
     pub fn build(&self) -> RealAnimator {
-        let mut b = StateAnimatorBuilder::new()
-            .from_state(St::from_index(self.initial_state as usize))
-            .from_values(self.initial_values.clone());
+        // The builder is documented as order-insensitive: in a third of the specifications the
+        // timelines are registered first and the initial state / values are given last.
+        let defaults_last = (self.initial_state as usize + self.states.iter().flatten().count()) % 3 == 0;
+        let mut b = StateAnimatorBuilder::new();
+        if !defaults_last {
+            b = b
+                .from_state(St::from_index(self.initial_state as usize))
+                .from_values(self.initial_values.clone());
+        }
         for (i, st) in self.states.iter().enumerate() {
             if let Some(m) = st {
+                // "Multiple calls to on with the same state result in the most recent timeline
+                // being used": some states first get a decoy that keyframes every property
+                if (i + m.total_keyframes()) % 4 == 1 {
+                    b = b.on(
+                        St::from_index(i),
+                        Vals::timeline()
+                            .duration_seconds(3.0)
+                            .keyframe(Vals::keyframe(0.0).a(-777.0).b(777.0).n(-777).k(77))
+                            .keyframe(Vals::keyframe(1.0).a(555.0).b(-555.0).n(555).k(55)),
+                    );
+                }
                 // every accepted argument form of `on` is used, chosen by the shape of the spec:
                 // a merged timeline, a built plain timeline, or the configuration builder itself
                 b = if m.parts.len() == 1 {
@@ -291,6 +308,11 @@ impl AnimSpec {
                     b.on(St::from_index(i), m.build())
                 };
             }
+        }
+        if defaults_last {
+            b = b
+                .from_values(self.initial_values.clone())
+                .from_state(St::from_index(self.initial_state as usize));
         }
         b.build()
     }
